@@ -7,7 +7,9 @@ import Exetera.Gen.Kernels
     {"op":"gen_kernel","kernel":"apply_spans_first","args":[{"arr":[0,2,3]},{"arr":[7,8,9]},{"none":true}],"fuel":100}
 
   Arguments: {"int":n} {"bool":b} {"arr":[ints]} {"barr":[bools]} {"none":true}.  A subscript that was negative is reported
-  as the error tag `negative_index` (the translated kernels treat it as an error branch, Python wraps around).
+  as the error tag `negative_index` (the translated kernels treat it as an error branch, Python wraps around); an
+  IndexError the kernel raises itself (`raise IndexError(...)`) carries `"raised": true` — unlike an out-of-range
+  subscript it is defined behaviour of the compiled code too.
 -/
 open Lean Exetera Exetera.PyRt
 namespace Driver.CGenKernels
@@ -38,7 +40,10 @@ partial def encodeVal : Val → Json
   | .tup vs => Json.arr (vs.map encodeVal).toArray
 
 def errOut : Err → Json
-  | .oob site => Json.mkObj [("err", Json.str (if site.startsWith "neg:" then "negative_index" else "index_error"))]
+  | .oob site =>
+    if site.startsWith "neg:" then Json.mkObj [("err", Json.str "negative_index")]
+    else if site.startsWith "raise" then Json.mkObj [("err", Json.str "index_error"), ("raised", Json.bool true)]
+    else Json.mkObj [("err", Json.str "index_error")]
   | e => Driver.errJson e
 
 def handle : Driver.Handler := fun op j =>
